@@ -178,14 +178,14 @@ func VerifC15_TwoTraps() {
 		tc, qc = append(tc, 3), append(qc, 2) // t... against g...
 	}
 	for i := 0; i < xl; i++ {
-		c := code(verifTemplate[i])
+		c := code(verifTemplate[i%len(verifTemplate)])
 		tc, qc = append(tc, c), append(qc, c)
 	}
 	for i := 0; i < subs; i++ {
 		tc, qc = append(tc, 0), append(qc, 1) // a against c
 	}
 	for i := 0; i < yl; i++ {
-		c := code(verifTemplate[xl+1+i])
+		c := code(verifTemplate[(xl+1+i)%len(verifTemplate)])
 		tc, qc = append(tc, c), append(qc, c)
 	}
 	for i := 0; i < fl; i++ {
